@@ -1,5 +1,8 @@
 /- Helper lemmas for C31: bit-level facts about the node bitmaps, nibble arithmetic on 128-bit values,
-   and the correctness of one `fill_node` level of the tree model. -/
+   the correctness of one `fill_node` level of the tree model and of all levels (`memberT_iff`), and the
+   flattening: buckets cut by counts = per-nibble filters (`bucketsF_eq`), the array `fill_node` builds is
+   the `desc` layout of the tree (`fillF_layout`, `createF_eq_flatten`), walking a placed layout = walking
+   the tree (`lookup_placed`), hence `memberF_eq_memberT`. -/
 import NtpVerif.Model.IpFilter
 
 namespace NtpVerif.IpFilter
@@ -110,7 +113,7 @@ instance (p : Prefix) (v : Nat) : Decidable (covers p v) := by unfold covers; in
 theorem topNibble_eq (v : Nat) (_h : v < W) : topNibble v = v / 2 ^ 124 := by
   unfold topNibble W at *; omega
 
-theorem shl4_eq (x : Nat) (h : x < W) : shl4 x = (x % 2 ^ 124) * 16 := by
+theorem shl4_eq (x : Nat) (_h : x < W) : shl4 x = (x % 2 ^ 124) * 16 := by
   unfold shl4 W at *; omega
 
 theorem shl4_lt (x : Nat) : shl4 x < W := by
@@ -571,5 +574,460 @@ theorem memberT_iff (ps : List Prefix) (v : Nat) (hv : v < W)
     unfold covers at hc ⊢
     rw [hc]
     exact (applyMask_spec p.1 p.2 hpW hl).2.2.symm
+
+
+/-! ### buckets cut by counts = per-nibble filters (sorted slice) -/
+
+def key (p : Prefix) : Nat := topNibble p.1
+
+theorem take_count_sorted (i : Nat) (l : List Prefix) (hs : l.Pairwise fun a b => key a ≤ key b)
+    (hge : ∀ p ∈ l, i ≤ key p) :
+    l.take (l.countP fun p => key p == i) = l.filter (fun p => key p == i) ∧
+    l.drop (l.countP fun p => key p == i) = l.filter (fun p => !(key p == i)) := by
+  induction l with
+  | nil => simp
+  | cons p tl ih =>
+    have hs' := (List.pairwise_cons.mp hs)
+    by_cases hp : key p = i
+    · have := ih hs'.2 (fun q hq => hge q (by simp [hq]))
+      simp [hp, this.1, this.2]
+    · have hgt : i < key p := by have := hge p (by simp); omega
+      have hall : ∀ q ∈ p :: tl, ¬ key q = i := by
+        intro q hq
+        simp only [List.mem_cons] at hq
+        rcases hq with rfl | hq
+        · exact hp
+        · have := hs'.1 q hq; omega
+      have hc : (p :: tl).countP (fun p => key p == i) = 0 := by
+        rw [List.countP_eq_zero]
+        intro q hq; simpa using hall q hq
+      have hf : (p :: tl).filter (fun p => key p == i) = [] := by
+        rw [List.filter_eq_nil_iff]
+        intro q hq; simpa using hall q hq
+      have hf2 : (p :: tl).filter (fun p => !(key p == i)) = p :: tl := by
+        rw [List.filter_eq_self]
+        intro q hq; simpa using hall q hq
+      rw [hc, hf, hf2]; simp
+
+theorem splitCounts_sorted (n i : Nat) (l : List Prefix) (hs : l.Pairwise fun a b => key a ≤ key b)
+    (hge : ∀ p ∈ l, i ≤ key p) :
+    splitCounts ((List.range' i n).map fun k => l.countP fun p => key p == k) l =
+      (List.range' i n).map fun k => l.filter fun p => key p == k := by
+  induction n generalizing i l with
+  | zero => simp [splitCounts]
+  | succ n ih =>
+    rw [List.range'_succ]
+    simp only [List.map_cons, splitCounts]
+    obtain ⟨h1, h2⟩ := take_count_sorted i l hs hge
+    rw [h1, h2]
+    congr 1
+    have hge' : ∀ p ∈ l.filter (fun p => !(key p == i)), i + 1 ≤ key p := by
+      intro p hp
+      simp only [List.mem_filter, Bool.not_eq_true', beq_eq_false_iff_ne, ne_eq] at hp
+      have := hge p hp.1; omega
+    have := ih (i + 1) (l.filter fun p => !(key p == i)) (List.Pairwise.filter _ hs) hge'
+    have hcnt : (List.range' (i + 1) n).map (fun k => l.countP fun p => key p == k) =
+        (List.range' (i + 1) n).map
+          (fun k => (l.filter fun p => !(key p == i)).countP fun p => key p == k) := by
+      apply List.map_congr_left
+      intro k hk
+      have hk' : i + 1 ≤ k := (List.mem_range'_1.mp hk).1
+      rw [List.countP_filter]
+      congr 1
+      funext p
+      by_cases hpk : key p = k
+      · have : ¬ key p = i := by omega
+        simp [hpk]; omega
+      · simp [hpk]
+    have hfil : (List.range' (i + 1) n).map (fun k => l.filter fun p => key p == k) =
+        (List.range' (i + 1) n).map
+          (fun k => (l.filter fun p => !(key p == i)).filter fun p => key p == k) := by
+      apply List.map_congr_left
+      intro k hk
+      have hk' : i + 1 ≤ k := (List.mem_range'_1.mp hk).1
+      rw [List.filter_filter]
+      congr 1
+      funext p
+      by_cases hpk : key p = k
+      · have : ¬ key p = i := by omega
+        simp [hpk]; omega
+      · simp [hpk]
+    rw [hcnt, hfil]
+    exact this
+
+theorem key_mono (a b : Prefix) (hb : b.1 < W) (h : ple a b = true) : key a ≤ key b := by
+  simp only [ple, Bool.or_eq_true, Bool.and_eq_true, decide_eq_true_eq, beq_iff_eq] at h
+  have ha : a.1 < W := by omega
+  unfold key
+  rw [topNibble_eq _ ha, topNibble_eq _ hb]
+  exact Nat.div_le_div_right (by omega)
+
+/-- the 16 counts cut exactly the per-nibble filters out of a sorted slice -/
+theorem bucketsF_eq (data : List Prefix) (hs : Sorted data) (hw : ∀ p ∈ data, p.1 < W) :
+    bucketsF data = bucketsT data := by
+  unfold bucketsF bucketsT
+  have hs' : data.Pairwise fun a b => key a ≤ key b := by
+    refine List.Pairwise.imp_of_mem ?_ hs
+    intro a b _ hb h
+    exact key_mono a b (hw b hb) h
+  have := splitCounts_sorted 16 0 data hs' (fun _ _ => Nat.zero_le _)
+  rw [List.range_eq_range']
+  exact this
+
+
+/-! ### layout of the array -/
+
+def rootNode : Tree → Nat → Node
+  | .node i o _, off => ⟨off, i, o⟩
+
+theorem descKids_cons (t : Tree) (rest : List Tree) (off : Nat) :
+    descKids (t :: rest) off =
+      (rootNode t off :: (descKids rest (off + (desc t off).length)).1,
+       desc t off ++ (descKids rest (off + (desc t off).length)).2) := by
+  cases t with
+  | node i o ks => simp [descKids, rootNode]
+
+theorem desc_node (i o : Nat) (kids : List Tree) (off : Nat) :
+    desc (.node i o kids) off =
+      (descKids kids (off + kids.length)).1 ++ (descKids kids (off + kids.length)).2 := by
+  simp [desc]
+
+theorem descKids_heads_length (kids : List Tree) (off : Nat) :
+    (descKids kids off).1.length = kids.length := by
+  induction kids generalizing off with
+  | nil => simp [descKids]
+  | cons t rest ih => rw [descKids_cons]; simp [ih]
+
+/-- skipping the decided buckets in the loop = looping over the undecided ones -/
+theorem foldl_skip {α β σ : Type} (g : α → Option β) (h : σ → β → σ) (init : σ) (l : List α) :
+    l.foldl (fun st x => match g x with | none => st | some d => h st d) init =
+      (l.filterMap g).foldl h init := by
+  induction l generalizing init with
+  | nil => rfl
+  | cons x xs ih =>
+    simp only [List.foldl_cons, List.filterMap_cons]
+    cases hx : g x with
+    | none => simp only [ih]
+    | some d => simp only [List.foldl_cons, ih]
+
+/-- what one recursive `fill_node` does, as a property of its data -/
+def FillsAs (f : Nat) (d : List Prefix) : Prop :=
+  ∀ (n : List Node) (i : Nat), i < n.length →
+    fillF f n d i = n.set i (rootNode (fillT f d) n.length) ++ desc (fillT f d) n.length
+
+/-- the loop over the undecided buckets fills the reserved child nodes in order and appends each
+    child's descendants -/
+theorem fill_loop (f : Nat) (ds : List (List Prefix)) (hds : ∀ d ∈ ds, FillsAs f d)
+    (pre post : List Node) :
+    (ds.foldl (fun (st : List Node × Nat) d => (fillF f st.1 d st.2, st.2 + 1))
+        (pre ++ List.replicate ds.length Node.default ++ post, pre.length)).1 =
+      pre ++ (descKids (ds.map (fillT f)) (pre.length + ds.length + post.length)).1 ++ post ++
+        (descKids (ds.map (fillT f)) (pre.length + ds.length + post.length)).2 := by
+  induction ds generalizing pre post with
+  | nil => simp [descKids]
+  | cons d rest ih =>
+    simp only [List.foldl_cons, List.map_cons, List.length_cons]
+    have hlen : (pre ++ List.replicate (rest.length + 1) Node.default ++ post).length =
+        pre.length + (rest.length + 1) + post.length := by simp; omega
+    rw [hds d (by simp) _ pre.length (by rw [hlen]; omega), hlen]
+    have hset : (pre ++ List.replicate (rest.length + 1) Node.default ++ post).set pre.length
+          (rootNode (fillT f d) (pre.length + (rest.length + 1) + post.length)) =
+        (pre ++ [rootNode (fillT f d) (pre.length + (rest.length + 1) + post.length)]) ++
+          List.replicate rest.length Node.default ++ post := by
+      rw [List.replicate_succ, List.append_assoc, List.set_append_right _ _ (Nat.le_refl _)]
+      simp
+    rw [hset, List.append_assoc _ post]
+    have := ih (fun d' hd' => hds d' (by simp [hd']))
+      (pre ++ [rootNode (fillT f d) (pre.length + (rest.length + 1) + post.length)])
+      (post ++ desc (fillT f d) (pre.length + (rest.length + 1) + post.length))
+    have hl : (pre ++ [rootNode (fillT f d) (pre.length + (rest.length + 1) + post.length)]).length
+        = pre.length + 1 := by simp
+    rw [hl] at this
+    rw [this, descKids_cons]
+    have hoff : pre.length + 1 + rest.length +
+        (post ++ desc (fillT f d) (pre.length + (rest.length + 1) + post.length)).length =
+        pre.length + (rest.length + 1) + post.length +
+          (desc (fillT f d) (pre.length + (rest.length + 1) + post.length)).length := by
+      simp; omega
+    rw [hoff]
+    simp
+
+
+def Good (f : Nat) (data : List Prefix) : Prop :=
+  Sorted data ∧ ∀ p ∈ data, Masked p ∧ p.2 ≤ 4 * (f + 1)
+
+/-- the data of the undecided buckets, in order -/
+def kidData (data : List Prefix) : List (List Prefix) :=
+  let inset := insetOf (bucketsT data)
+  let outset := outsetOf (bucketsT data) inset
+  (List.range 16).filterMap fun i =>
+    if decided inset outset i then none else some (shiftSeg (bucketOf data i))
+
+theorem fillWith_kids (child : List Prefix → Tree) (data : List Prefix) :
+    fillWith child (bucketsT data) =
+      .node (insetOf (bucketsT data)) (outsetOf (bucketsT data) (insetOf (bucketsT data)))
+        ((kidData data).map child) := by
+  rw [fillWith_eq]
+  simp only [kidData, List.map_filterMap]
+  congr 2
+  funext i
+  split <;> rfl
+
+theorem kidData_length (data : List Prefix) :
+    (kidData data).length =
+      ((List.range 16).filter fun i => !decided (insetOf (bucketsT data))
+        (outsetOf (bucketsT data) (insetOf (bucketsT data))) i).length := by
+  unfold kidData
+  rw [length_filterMap_eq]
+  congr 2
+  funext i
+  split <;> simp_all
+
+/-- an undecided bucket's shifted data is again sorted and masked, one level down;
+    at the last level nothing is undecided -/
+theorem kidData_good (f : Nat) (data : List Prefix) (hg : Good f data) :
+    ∀ d ∈ kidData data, 1 ≤ f ∧ Good (f - 1) d := by
+  intro d hd
+  obtain ⟨hs, hm⟩ := hg
+  have hm' : ∀ p ∈ data, Masked p := fun p hp => (hm p hp).1
+  simp only [kidData, List.mem_filterMap, List.mem_range] at hd
+  obtain ⟨i, hi, hd⟩ := hd
+  split at hd
+  · cases hd
+  · rename_i hdec
+    cases hd
+    simp only [decided, Bool.or_eq_true, not_or, Bool.not_eq_true] at hdec
+    have hv : i * 2 ^ 124 < W := by unfold W; omega
+    have hdiv : i * 2 ^ 124 / 2 ^ 124 = i := Nat.mul_div_cancel _ (Nat.pow_pos (by omega))
+    have hu := undecided_level data (i * 2 ^ 124) hv hs hm'
+      (by rw [hdiv]; exact hdec.1) (by rw [hdiv]; exact hdec.2)
+    rw [hdiv] at hu
+    obtain ⟨hne, h5, _⟩ := hu
+    have hf : 1 ≤ f := by
+      rcases hb : bucketOf data i with _ | ⟨p, rest⟩
+      · exact absurd hb hne
+      · have hp : p ∈ bucketOf data i := by rw [hb]; simp
+        have := h5 p hp
+        have := (hm p ((mem_bucket _ _ _).mp hp).1).2
+        omega
+    refine ⟨hf, ?_⟩
+    obtain ⟨g, rfl⟩ : ∃ g, f = g + 1 := ⟨f - 1, by omega⟩
+    exact child_good data i g hs hm h5
+
+theorem fillF_zero (nodes : List Node) (data : List Prefix) (idx : Nat) :
+    fillF 0 nodes data idx =
+      nodes.set idx ⟨nodes.length, insetOf (bucketsF data),
+          outsetOf (bucketsF data) (insetOf (bucketsF data))⟩ ++
+        List.replicate ((List.range 16).filter fun i => !decided (insetOf (bucketsF data))
+          (outsetOf (bucketsF data) (insetOf (bucketsF data))) i).length Node.default := by
+  rfl
+
+theorem fillF_succ (f : Nat) (nodes : List Node) (data : List Prefix) (idx : Nat) :
+    fillF (f + 1) nodes data idx =
+      ((bucketsF data).zipIdx.foldl (fun (st : List Node × Nat) si =>
+        if decided (insetOf (bucketsF data))
+            (outsetOf (bucketsF data) (insetOf (bucketsF data))) si.2 then st
+        else (fillF f st.1 (shiftSeg si.1) st.2, st.2 + 1))
+        (nodes.set idx ⟨nodes.length, insetOf (bucketsF data),
+            outsetOf (bucketsF data) (insetOf (bucketsF data))⟩ ++
+          List.replicate ((List.range 16).filter fun i => !decided (insetOf (bucketsF data))
+            (outsetOf (bucketsF data) (insetOf (bucketsF data))) i).length Node.default,
+         nodes.length)).1 := by
+  rfl
+
+/-- **layout**: on sorted, masked data within the depth budget, `fill_node` writes the root of the tree
+    at `node_index` and appends exactly the `desc` layout of the tree -/
+theorem fillF_layout (f : Nat) (data : List Prefix) (hg : Good f data) : FillsAs f data := by
+  induction f generalizing data with
+  | zero =>
+    intro n i hi
+    have hb := bucketsF_eq data hg.1 (fun p hp => (hg.2 p hp).1.1)
+    have hk : kidData data = [] := by
+      rcases hkd : kidData data with _ | ⟨d, rest⟩
+      · rfl
+      · have := (kidData_good 0 data hg d (by rw [hkd]; simp)).1
+        omega
+    rw [fillF_zero, hb, ← kidData_length, hk]
+    have ht : fillT 0 data = fillWith (fun _ => .node 0 0 []) (bucketsT data) := rfl
+    rw [ht, fillWith_kids, hk]
+    simp [rootNode, desc_node, descKids]
+  | succ g ih =>
+    intro n i hi
+    have hb := bucketsF_eq data hg.1 (fun p hp => (hg.2 p hp).1.1)
+    rw [fillF_succ, hb, ← kidData_length]
+    have ht : fillT (g + 1) data = fillWith (fillT g) (bucketsT data) := rfl
+    rw [ht, fillWith_kids]
+    -- the loop over all 16 buckets, skipping the decided ones, is the loop over `kidData`
+    have hfold : ∀ init : List Node × Nat,
+        (bucketsT data).zipIdx.foldl (fun (st : List Node × Nat) (si : List Prefix × Nat) =>
+          if decided (insetOf (bucketsT data))
+              (outsetOf (bucketsT data) (insetOf (bucketsT data))) si.2 then st
+          else (fillF g st.1 (shiftSeg si.1) st.2, st.2 + 1)) init =
+        ((bucketsT data).zipIdx.filterMap (fun si =>
+          if decided (insetOf (bucketsT data))
+              (outsetOf (bucketsT data) (insetOf (bucketsT data))) si.2 then none
+          else some (shiftSeg si.1))).foldl
+          (fun (st : List Node × Nat) d => (fillF g st.1 d st.2, st.2 + 1)) init := by
+      intro init
+      rw [← foldl_skip (fun (si : List Prefix × Nat) =>
+          if decided (insetOf (bucketsT data))
+              (outsetOf (bucketsT data) (insetOf (bucketsT data))) si.2 then none
+          else some (shiftSeg si.1))
+        (fun (st : List Node × Nat) d => (fillF g st.1 d st.2, st.2 + 1))]
+      congr 1
+      funext st si
+      split <;> simp_all
+    rw [hfold]
+    have hkd : (bucketsT data).zipIdx.filterMap (fun si =>
+          if decided (insetOf (bucketsT data))
+              (outsetOf (bucketsT data) (insetOf (bucketsT data))) si.2 then none
+          else some (shiftSeg si.1)) = kidData data := by
+      unfold bucketsT kidData
+      rw [zipIdx_map_range, List.filterMap_map]
+      rfl
+    rw [hkd]
+    have hloop := fill_loop g (kidData data)
+      (fun d hd => ih d (by
+        have := (kidData_good (g + 1) data hg d hd).2
+        simpa using this))
+      (n.set i ⟨n.length, insetOf (bucketsT data),
+        outsetOf (bucketsT data) (insetOf (bucketsT data))⟩) []
+    simp only [List.append_nil, List.length_set, List.length_nil, Nat.add_zero] at hloop
+    rw [hloop]
+    simp [rootNode, desc_node, List.append_assoc]
+
+
+/-! ### walking the array = walking the tree -/
+
+/-- the array holds the root of `t` at `idx` (with child offset `off`) and the layout of `t`'s
+    descendants from position `off` on -/
+def Placed (arr : List Node) (t : Tree) (idx off : Nat) : Prop :=
+  arr[idx]? = some (rootNode t off) ∧ ∀ j x, (desc t off)[j]? = some x → arr[off + j]? = some x
+
+/-- where child `k` and its descendants sit inside the layout of a children list -/
+theorem descKids_placed (kids : List Tree) (start k : Nat) (kid : Tree) (hk : kids[k]? = some kid) :
+    ∃ offk, start ≤ offk ∧ (descKids kids start).1[k]? = some (rootNode kid offk) ∧
+      ∀ j x, (desc kid offk)[j]? = some x →
+        (descKids kids start).2[(offk - start) + j]? = some x := by
+  induction kids generalizing start k with
+  | nil => simp at hk
+  | cons t rest ih =>
+    rw [descKids_cons]
+    cases k with
+    | zero =>
+      simp only [List.getElem?_cons_zero, Option.some.injEq] at hk
+      subst hk
+      refine ⟨start, Nat.le_refl _, by simp, ?_⟩
+      intro j x hx
+      have hj : j < (desc t start).length := (List.getElem?_eq_some_iff.mp hx).1
+      simp only [Nat.sub_self, Nat.zero_add]
+      rw [List.getElem?_append_left hj]
+      exact hx
+    | succ k =>
+      simp only [List.getElem?_cons_succ] at hk
+      obtain ⟨offk, hle, hh, ht⟩ := ih (start + (desc t start).length) k hk
+      refine ⟨offk, by omega, by simpa using hh, ?_⟩
+      intro j x hx
+      have := ht j x hx
+      have hidx : offk - start + j =
+          (desc t start).length + (offk - (start + (desc t start).length) + j) := by omega
+      rw [hidx, List.getElem?_append_right (by omega)]
+      simpa using this
+
+/-- **lookup**: whatever the tree lookup answers, the array lookup answers the same -/
+theorem lookup_placed (arr : List Node) (fuel : Nat) (t : Tree) (idx off v : Nat) (b : Bool)
+    (hp : Placed arr t idx off) (h : lookupT fuel t v = some b) : lookupF arr fuel idx v = some b := by
+  induction fuel generalizing t idx off v with
+  | zero => simp [lookupT] at h
+  | succ fuel ih =>
+    obtain ⟨i, o, kids⟩ := t
+    simp only [lookupT] at h
+    simp only [lookupF, hp.1, rootNode]
+    split
+    · rename_i hi
+      rw [if_pos hi] at h; exact h
+    · rename_i hi
+      rw [if_neg hi] at h
+      split
+      · rename_i ho
+        rw [if_pos ho] at h; exact h
+      · rename_i ho
+        rw [if_neg ho] at h
+        rcases hk : kids[undecidedBelow i o (topNibble v)]? with _ | kid
+        · rw [hk] at h; cases h
+        · rw [hk] at h
+          simp only at h
+          obtain ⟨offk, hle, hh, ht⟩ :=
+            descKids_placed kids (off + kids.length) _ kid hk
+          have hlen := descKids_heads_length kids (off + kids.length)
+          have hu : undecidedBelow i o (topNibble v) < (descKids kids (off + kids.length)).1.length :=
+            (List.getElem?_eq_some_iff.mp hh).1
+          refine ih kid _ offk (shl4 v) ⟨?_, ?_⟩ h
+          · apply hp.2
+            rw [desc_node, List.getElem?_append_left hu]
+            exact hh
+          · intro j x hx
+            have h1 := ht j x hx
+            have h2 := hp.2 (kids.length + (offk - (off + kids.length) + j)) x (by
+              rw [desc_node, List.getElem?_append_right (by omega), hlen]
+              simpa using h1)
+            have he : off + (kids.length + (offk - (off + kids.length) + j)) = offk + j := by omega
+            rw [he] at h2
+            exact h2
+
+/-! ### `create` on the array -/
+
+theorem create_good (ps : List Prefix) (hps : ∀ p ∈ ps, p.1 < W ∧ p.2 ≤ 128) :
+    Good FUEL ((ps.map fun p => (applyMask p.1 p.2, p.2)).mergeSort ple) := by
+  refine ⟨List.pairwise_mergeSort (fun a b c => ple_trans a b c) (fun a b => ple_total a b) _, ?_⟩
+  intro q hq
+  rw [(List.mergeSort_perm _ ple).mem_iff, List.mem_map] at hq
+  obtain ⟨p, hp, rfl⟩ := hq
+  obtain ⟨hpW, hl⟩ := hps p hp
+  obtain ⟨h1, h2, _⟩ := applyMask_spec p.1 p.2 hpW hl
+  exact ⟨⟨h1, hl, h2⟩, by simp only [FUEL]; omega⟩
+
+theorem maskAll_some (ps : List Prefix) (hps : ∀ p ∈ ps, p.1 < W ∧ p.2 ≤ 128) :
+    maskAll ps = some (ps.map fun p => (applyMask p.1 p.2, p.2)) := by
+  unfold maskAll
+  have hall : (ps.all fun p => decide (p.2 ≤ 128)) = true := by
+    simp only [List.all_eq_true, decide_eq_true_eq]
+    exact fun p hp => (hps p hp).2
+  rw [if_pos hall]
+
+theorem flatten_eq (t : Tree) : flatten t = rootNode t 1 :: desc t 1 := by
+  cases t; rfl
+
+/-- **the array the code builds is the layout of the tree** -/
+theorem createF_eq_flatten (ps : List Prefix) (hps : ∀ p ∈ ps, p.1 < W ∧ p.2 ≤ 128) :
+    createF ps = (createT ps).map flatten := by
+  unfold createF createT
+  rw [maskAll_some ps hps]
+  simp only [Option.map_some, Option.some.injEq]
+  rw [fillF_layout FUEL _ (create_good ps hps) [Node.default] 0 (by simp), flatten_eq]
+  simp
+
+theorem placed_flatten (t : Tree) : Placed (flatten t) t 0 1 := by
+  rw [flatten_eq]
+  refine ⟨by simp, ?_⟩
+  intro j x hx
+  rw [Nat.add_comm, List.getElem?_cons_succ]
+  exact hx
+
+/-- **flat = tree**: on every prefix list (lengths ≤ 128) and every 128-bit value the array model and
+    the tree model give the same answer -/
+theorem memberF_eq_memberT (ps : List Prefix) (v : Nat) (hps : ∀ p ∈ ps, p.1 < W ∧ p.2 ≤ 128)
+    (hv : v < W) : memberF ps v = memberT ps v := by
+  obtain ⟨b, hb, _⟩ := memberT_iff ps v hv hps
+  rw [hb]
+  unfold memberF
+  rw [createF_eq_flatten ps hps]
+  unfold memberT at hb
+  rcases hc : createT ps with _ | t
+  · rw [hc] at hb; simp at hb
+  · rw [hc] at hb
+    simp only [Option.bind_some] at hb
+    simp only [Option.map_some, Option.bind_some]
+    exact lookup_placed _ _ t 0 1 v b (placed_flatten t) hb
 
 end NtpVerif.IpFilter
